@@ -103,7 +103,7 @@ def run(ctx: Ctx, rep: Report, what: str, extra: list | None = None) -> None:
 
     with ThreadPoolExecutor(8) as ex:
         results = list(ex.map(judge_one, cases))
-    n_vals = n_skip = 0
+    n_vals = n_skip = n_refused = 0
     for (name, m, pts, case), res in zip(cases, results):
         rep.add_tlc(res, f"oracle: {name} evaluated by the specification (exact rationals, PyFn bodies)")
         if len(res.payloads) != 1:
@@ -129,9 +129,41 @@ def run(ctx: Ctx, rep: Report, what: str, extra: list | None = None) -> None:
             if sorted(ans["static"]) != sorted(m.get_derived_parameter_names()):
                 bad = {"what": "oracle: derived parameters", "expected": sorted(ans["static"]),
                        "observed": sorted(m.get_derived_parameter_names())}
+        sm = None
+        if what == "C12":
+            # the symbolic equations of the same model, judged by the same exact values (fractional coefficients,
+            # shipped rate laws); a refused conversion is a visible failure and not judged here
+            try:
+                from mxlpy.symbolic import to_symbolic_model
+
+                sm = to_symbolic_model(m)
+            except Exception:  # noqa: BLE001
+                n_refused += 1
         for p, out in zip(pts, ans["pts"]):
             y = {k: float(v) for k, v in p["y"].items()}
             t = float(p["t"])
+            if sm is not None:
+                import sympy
+
+                subs = {sym: y[k] for k, sym in sm.variables.items()}
+                subs.update({sym: sm.parameter_values[k] for k, sym in sm.parameters.items()})
+                subs[sympy.Symbol("time")] = t
+                try:
+                    eqs = [float(e.subs(subs)) for e in sm.eqs]
+                except Exception as e:  # noqa: BLE001
+                    if all(to_fraction(v) is not None for v in out["rhs"]):
+                        bad = {"what": "oracle: symbolic equations cannot be evaluated where the specification has values",
+                               "exception": f"{type(e).__name__}: {str(e)[:100]}", "t": t, "y": y}
+                    continue
+                for j, v in enumerate(out["rhs"]):
+                    f = to_fraction(v)
+                    if f is None:
+                        n_skip += 1
+                        continue
+                    n_vals += 1
+                    if j >= len(eqs) or not close(float(f), eqs[j]):
+                        bad = {"what": "oracle: symbolic equations", "position": j, "expected": str(f),
+                               "observed": eqs[j] if j < len(eqs) else None, "t": t, "y": y}
             try:
                 args = m.get_args(y, t).to_dict()
                 rhs = list(m.get_right_hand_side(y, t).to_numpy())
@@ -164,6 +196,8 @@ def run(ctx: Ctx, rep: Report, what: str, extra: list | None = None) -> None:
             rep.traces += 1
     rep.notes["oracle_models"] = [c[0] for c in cases]
     rep.notes["oracle_models_not_encodable"] = skipped
+    if what == "C12":
+        rep.notes["oracle_conversions_refused"] = n_refused
     rep.notes["oracle_values_compared"] = n_vals
     rep.notes["oracle_values_declined_by_rational_guard"] = n_skip
     if n_vals < 100:
